@@ -476,5 +476,78 @@ theorem unflatten_flatten_main (assume : Bool) (d : JVal) (h : roundtrippable as
     congr 1
     exact rebuilds assume d h (depth (SL d) + 1) (Nat.lt_succ_self _)
 
+/-- the default option's ambiguity is real: a sorted object whose member names are exactly the array
+    indices 0..n-1 (children roundtrippable) comes back as an ARRAY, so the `arrayLike` clause of
+    `roundtrippable` cannot be dropped -/
+theorem index_named_main (m : Bytes × JVal) (ms : List (Bytes × JVal)) (hs : sortedB (m :: ms) = true)
+    (hc : rtMembers false (m :: ms) = true) (hal : arrayLike (m :: ms) = true) :
+    ∃ xs, unflatten false false (flatten false (.obj (m :: ms))) = .ok (.arr xs) := by
+  have hmw := rtMembers_wf false _ hc
+  have hw : JVal.WF (.obj (m :: ms)) := ⟨sorted_of_sortedB hs, hmw.1⟩
+  have hsm : SmallArrays (.obj (m :: ms)) := by simpa [SmallArrays] using hmw.2
+  obtain ⟨F, hF, hne, hcol⟩ := flatten_collect _ hw hsm
+  have hgood := goodMembers (m :: ms) hmw.1 hmw.2
+  have hss := ssorted_of_sorted (sorted_of_sortedB hs)
+  have hSL : SL (.obj (m :: ms)) = joinBlocks (SLMembers (m :: ms)) := by simp [SL]
+  have hitems : items (joinBlocks (SLMembers (m :: ms))) = (SLMembers (m :: ms)).map itemOfBlock :=
+    items_joinBlocks (ssorted_SLMembers hss) (by
+      intro b hb
+      obtain ⟨kv, hkv, rfl⟩ := mem_SLMembers.1 hb
+      exact proper_SL _ (hgood kv hkv))
+  rw [hF]
+  cases F with
+  | nil => exact absurd rfl hne
+  | cons m0 ms0 =>
+    simp only [unflatten, hcol, hSL, Bool.not_false, build, if_true]
+    generalize hfu : depth (joinBlocks (SLMembers (m :: ms))) = fuel
+    have hd : depth (joinBlocks (SLMembers (m :: ms))) < fuel + 1 := by omega
+    have hsub : ∀ kv ∈ m :: ms, build false fuel true true (SL kv.2) = kv.2 := by
+      intro kv hkv
+      apply rebuildsMembers false (m :: ms) hc kv hkv fuel
+      exact depth_block (b := (kv.1, SL kv.2)) (mem_SLMembers.2 ⟨kv, hkv, rfl⟩) (hgood kv hkv).1 hd
+    have harr : ∃ xs, asArray (build false fuel true true) (joinBlocks (SLMembers (m :: ms))) = some (.arr xs) := by
+      unfold asArray
+      rw [hitems, SLMembers_eq_map, List.map_map, mapM_map_opt]
+      have hcongr : (m :: ms).mapM (fun kv => idxChild (build false fuel true true) ((itemOfBlock ∘ fun kv => (kv.1, SL kv.2)) kv)) =
+          (m :: ms).mapM (fun kv => (decToIndex kv.1).map fun n => (n, kv.2)) := by
+        apply mapM_congr_opt
+        intro kv hkv
+        exact idxChild_block _ kv.1 kv.2 (hgood kv hkv) (hsub kv hkv)
+      rw [hcongr]
+      unfold arrayLike at hal
+      cases hm : (m :: ms).mapM (fun kv => (decToIndex kv.1).map fun n => (n, kv.2)) with
+      | none => rw [hm] at hal; cases hal
+      | some ivs =>
+        rw [hm] at hal; simp only [] at hal
+        exact ⟨(emplaceAll natLt [] ivs).map (·.2), by simp only [hal, if_true]⟩
+    obtain ⟨xs, hx⟩ := harr
+    exact ⟨xs, by rw [hx]⟩
+
+/-- the members of `flatten d` are the (pointer text, leaf) pairs of `d` -/
+theorem flatten_members (d : JVal) (hw : JVal.WF d) (hs : SmallArrays d) :
+    ∀ kv, kv ∈ flattenInto false [] d [] ↔ ∃ e ∈ leaves d, kv = (Pointer.toString e.1, e.2) := by
+  have hfun := leaves_functional d hw hs
+  rw [flattenInto_eq d [] [] hs, emplaceStr_eq [] (leaves d) [] trivial]
+  have hf1 : Functional ([] ++ (leaves d).map (strKey [])) := by
+    intro k v v' h1 h2
+    simp only [List.nil_append] at h1 h2
+    obtain ⟨e, he, h⟩ := List.mem_map.1 h1
+    obtain ⟨e', he', h'⟩ := List.mem_map.1 h2
+    simp only [strKey, List.nil_append] at h h'
+    have hp : e.1 = e'.1 := toString_inj (by rw [(Prod.mk.inj h).1, (Prod.mk.inj h').1])
+    rw [← (Prod.mk.inj h).2, ← (Prod.mk.inj h').2]
+    apply hfun e.1 e.2 e'.2 he
+    rw [hp]; exact he'
+  have sF := emplaceAll_spec keyLt_st ((leaves d).map (strKey [])) [] trivial hf1
+  intro kv
+  rw [sF.2 kv]
+  constructor
+  · rintro (h | h)
+    · cases h
+    · obtain ⟨e, he, rfl⟩ := List.mem_map.1 h
+      exact ⟨e, he, by simp [strKey]⟩
+  · rintro ⟨e, he, rfl⟩
+    exact Or.inr (List.mem_map.2 ⟨e, he, by simp [strKey]⟩)
+
 end SMap
 end JV
